@@ -287,6 +287,11 @@ def gen_consts():
     RX("reFreshPattern", regex_of(f.assign("PATTERN"), {"_UNITS": units}), "freshness_date_parser.py PATTERN")
     SL("freshSkip", const_eval(f.assign("skip", "FreshnessDateDataParser._are_all_words_units"), {"_UNITS": units}), "freshness _are_all_words_units skip")
     emit("def exceptFreshParseTime : List (List String) := " + llist(except_names(f.func("FreshnessDateDataParser._parse_time")), llist))
+    byc = None
+    for n in ast.walk(f.func("FreshnessDateDataParser.parse")):
+        if isinstance(n, ast.If) and "RETURN_TIME_AS_PERIOD" in ast.unparse(n.test):
+            byc = any(isinstance(c, ast.Compare) and isinstance(c.ops[0], ast.NotEq) for c in ast.walk(n.test))
+    emit("/-- freshness_date_parser.py parse: period 'time' is decided by `old_date != date` (true) or by a clock time having been parsed (false) -/\ndef freshTimePeriodByChange : Bool := " + lbool(bool(byc)))
     SL("freshPeriodKeys", [c for n in ast.walk(f.func("FreshnessDateDataParser._parse_date")) if isinstance(n, ast.For) for c in const_eval(n.iter)], "freshness _parse_date period keys")
 
     t = Src("dateparser/timezone_parser.py")
